@@ -446,6 +446,14 @@ func vfC16Segments(seedCase *vfSerCase, ctx *vfCtx) *vfViolation {
 			undamaged[id] = d
 		}
 	}
+	// only the files of the two undamaged segments are protected: a store may clean up the damaged one
+	vfProtectedFiles = map[string]bool{}
+	for name := range final {
+		if !strings.Contains(name, "_000002.") {
+			vfProtectedFiles[name] = true
+		}
+	}
+	defer func() { vfProtectedFiles = nil }()
 	seq := 0
 	images := int64(0)
 	for _, kindName := range []string{"hybrid", "vector", "text", "metadata"} {
